@@ -54,6 +54,8 @@ def lf(x):
         return NAN
     if x == '<fs>':
         return FS
+    if x == '<1.0>':
+        return 1.0
     return tuple(x) if isinstance(x, list) else x
 
 
@@ -394,6 +396,9 @@ class M2mCheck(object):
             A, B = A + ['<nan>'], B + ['<nan>']     # a key that is not equal to itself (float('nan'))
         if r.random() < 0.25:
             A, B = A + ['<fs>'], B + ['<fs>']       # a frozenset as a member: an equal plain set is NOT hashable
+        if r.random() < 0.3:
+            # keys that are equal without being the same object: a tuple built anew at every use, 1.0 next to 1
+            A, B = A + [[7, 8], '<1.0>'], B + [[7, 8], '<1.0>']
         for _ in range(r.randint(1, r.choice([6, 20, 60]))):
             side = r.choice(['fwd', 'fwd', 'inv'])
             ks, vs = (A, B) if side == 'fwd' else (B, A)
